@@ -324,8 +324,8 @@ int dyadic_rational_root_approx(lp_dyadic_rational_t* pow, const lp_dyadic_ratio
   /* ensure denominator is a perfect root and bigger than prec */
   unsigned long k = (a->n < prec? prec : a->n);
   k += (n - k%n) % n;
-  pow->n = k/n;
   mpz_mul_2exp(&pow->a,&a->a, k - a->n);
+  pow->n = k/n;
 
   int exact = mpz_root(&pow->a,&pow->a,n);
 
